@@ -27,3 +27,19 @@ func (root *Root) VerifSubscribers() []Subscriber {
 	}
 	return subs
 }
+
+// VerifDirectives returns the directive definitions in table order.
+func (root *Root) VerifDirectives() []Type {
+	root.init()
+	return root.dirs.list
+}
+
+// VerifSchema returns the schema block in force, or nil.
+func (root *Root) VerifSchema() *Schema {
+	return root.schema
+}
+
+// VerifArgs returns the arguments of a directive definition.
+func (t *Directive) VerifArgs() []*Arg {
+	return t.args.list
+}
